@@ -244,6 +244,47 @@ impl rand_core::TryRngCore for TryBigSrc {
     }
 }
 
+/// A source that only counts (delivers zero bytes): for the cheap "shape"
+/// harnesses of from_rng / try_from_rng (how many bytes, how many calls).
+pub struct CountSrc {
+    pub calls: usize,
+    pub bytes: usize,
+    pub fail_at: usize,
+    pub err: u32,
+}
+impl RngCore for CountSrc {
+    fn next_u32(&mut self) -> u32 {
+        self.calls += 1;
+        0
+    }
+    fn next_u64(&mut self) -> u64 {
+        self.calls += 1;
+        0
+    }
+    fn fill_bytes(&mut self, dest: &mut [u8]) {
+        self.calls += 1;
+        self.bytes += dest.len();
+    }
+}
+pub struct TryCountSrc(pub CountSrc);
+impl rand_core::TryRngCore for TryCountSrc {
+    type Error = crate::src_rng::SrcError;
+    fn try_next_u32(&mut self) -> Result<u32, Self::Error> {
+        Ok(self.0.next_u32())
+    }
+    fn try_next_u64(&mut self) -> Result<u64, Self::Error> {
+        Ok(self.0.next_u64())
+    }
+    fn try_fill_bytes(&mut self, dest: &mut [u8]) -> Result<(), Self::Error> {
+        if self.0.calls >= self.0.fail_at {
+            self.0.calls += 1;
+            return Err(crate::src_rng::SrcError(self.0.err));
+        }
+        self.0.fill_bytes(dest);
+        Ok(())
+    }
+}
+
 macro_rules! isaac_seeding {
     ($m:ident, $Core:ty, $Rng:ty, $W:ident, $NB:expr, $seedwords:expr, $initpath:path, $from_seed_path:path) => {
         pub mod $m {
@@ -341,6 +382,40 @@ macro_rules! isaac_seeding {
                     j += 1;
                 }
                 assert!(key(k) as u64 == u64::from_le_bytes(b));
+            }
+
+            /// Quick-tier shape of from_rng / try_from_rng (counting source, no
+            /// byte contents): exactly one call for 256 words' worth of bytes,
+            /// two passes, fresh buffer; the source's error and no
+            /// initialisation when it fails at that call.
+            #[kani::proof]
+            #[kani::unwind(260)]
+            #[kani::stub($initpath, init_stub)]
+            #[allow(static_mut_refs)]
+            pub fn rng_routes_shape() {
+                let mut s1 = CountSrc { calls: 0, bytes: 0, fail_at: usize::MAX, err: 0 };
+                let g = <$Rng>::from_rng(&mut s1);
+                assert!(s1.calls == 1 && s1.bytes == 256 * $NB);
+                assert!(fresh_from_stub(&g) && unsafe { INIT_ROUNDS } == 2);
+                unsafe {
+                    INIT_CALLS = 0;
+                }
+                let fail_at: usize = kani::any();
+                let err: u32 = kani::any();
+                let mut s2 = TryCountSrc(CountSrc { calls: 0, bytes: 0, fail_at, err });
+                match <$Rng>::try_from_rng(&mut s2) {
+                    Ok(g2) => {
+                        assert!(fail_at >= 1);
+                        assert!(s2.0.calls == 1 && s2.0.bytes == 256 * $NB);
+                        assert!(fresh_from_stub(&g2) && unsafe { INIT_ROUNDS } == 2);
+                    }
+                    Err(e) => {
+                        assert!(fail_at == 0 && e == crate::src_rng::SrcError(err));
+                        assert!(unsafe { INIT_CALLS } == 0 && s2.0.bytes == 0);
+                    }
+                }
+                kani::cover!(fail_at == 0, "source fails");
+                kani::cover!(fail_at > 0, "source works");
             }
 
             /// try_from_rng: as from_rng for a working source; the source's
